@@ -533,7 +533,9 @@ func c16DefinitionJSON() string {
   "input_descriptors": [
    {"id": "id_membership", "constraints": {"fields": [
      {"path": ["$.type"], "filter": {"type": "string", "const": "C16MembershipCredential"}},
-     {"id": "issuer_field", "path": ["$.issuer"], "filter": {"type": "string", "const": %q}}
+     {"id": "issuer_field", "path": ["$.issuer"], "filter": {"type": "string", "const": %q}},
+     {"id": "member_name", "path": ["$.credentialSubject.name", "$.credentialSubject[0].name"], "filter": {"type": "string"}},
+     {"id": "member_city", "path": ["$.credentialSubject.address.city", "$.credentialSubject[0].address.city"], "filter": {"type": "string"}}
    ]}},
    {"id": "id_registration", "constraints": {"fields": [
      {"path": ["$.type"], "filter": {"type": "string", "const": "DiscoveryRegistrationCredential"}},
@@ -688,13 +690,14 @@ func (w *c16World) buildVP(s c16VPSpec) (vc.VerifiablePresentation, string) {
 func (w *c16World) membershipVC(issuer *c16ID, signKey *ecdsa.PrivateKey, subject did.DID, exp *time.Time) vc.VerifiableCredential {
 	id := ssi.MustParseURI(issuer.did.String() + "#" + w.nextID("vc"))
 	res, err := vc.CreateJWTVerifiableCredential(context.Background(), vc.VerifiableCredential{
-		Context:           []ssi.URI{vc.VCContextV1URI()},
-		ID:                &id,
-		Type:              []ssi.URI{vc.VerifiableCredentialTypeV1URI(), ssi.MustParseURI("C16MembershipCredential")},
-		Issuer:            issuer.did.URI(),
-		IssuanceDate:      w.base.Add(-time.Hour),
-		ExpirationDate:    exp,
-		CredentialSubject: []interface{}{map[string]interface{}{"id": subject.String(), "member": "yes"}},
+		Context:        []ssi.URI{vc.VCContextV1URI()},
+		ID:             &id,
+		Type:           []ssi.URI{vc.VerifiableCredentialTypeV1URI(), ssi.MustParseURI("C16MembershipCredential")},
+		Issuer:         issuer.did.URI(),
+		IssuanceDate:   w.base.Add(-time.Hour),
+		ExpirationDate: exp,
+		CredentialSubject: []interface{}{map[string]interface{}{"id": subject.String(), "member": "yes",
+			"name": "Organisation " + w.nextID("n"), "address": map[string]interface{}{"city": "City " + w.nextID("c")}}},
 	}, func(_ context.Context, claims map[string]interface{}, _ map[string]interface{}) (string, error) {
 		return c16Sign(signKey, issuer.kid, claims)
 	})
@@ -750,8 +753,12 @@ func (w *c16World) nextOff(s, d int) int {
 func (w *c16World) validVP(s, off int) (vc.VerifiablePresentation, string) {
 	exp := w.at(off)
 	subj := c16Subjects[s]
-	vp, id := w.buildVP(c16VPSpec{signer: subj, aud: []string{c16ServiceID}, exp: &exp,
-		creds: []vc.VerifiableCredential{w.memberOf(s), w.registrationVC(subj.did)}})
+	creds := []vc.VerifiableCredential{w.memberOf(s), w.registrationVC(subj.did)}
+	if w.seq%3 == 0 {
+		// the order of the credentials in a presentation is the registrant's business: not always the definition's order
+		creds[0], creds[1] = creds[1], creds[0]
+	}
+	vp, id := w.buildVP(c16VPSpec{signer: subj, aud: []string{c16ServiceID}, exp: &exp, creds: creds})
 	w.allOffs[id] = off
 	return vp, id
 }
@@ -1747,6 +1754,12 @@ func (w *c16World) opSettle(ci int) {
 
 func (w *c16World) settleCompare(c *c16Node, stage string) {
 	x := w.x
+	// the server node answers searches on the list it serves from the same code: judge its fields too
+	if sres, err := w.server.mod.Search(c16ServiceID, map[string]string{}); err == nil {
+		w.checkFields("server", sres)
+	} else {
+		x.Fatalf("Search on server: %v", err)
+	}
 	want := map[string]*c16Entry{}
 	for _, e := range w.list {
 		if e.kind == "reg" && !w.expired(e) {
@@ -1800,9 +1813,91 @@ func (w *c16World) settleCompare(c *c16Node, stage string) {
 // ---------------------------------------------------------------------------------------------------------------------
 // oracle: client
 
+// c16CredSubject returns the (single) credentialSubject of a credential as a generic map.
+func c16CredSubject(c vc.VerifiableCredential) map[string]interface{} {
+	if len(c.CredentialSubject) != 1 {
+		return nil
+	}
+	b, err := json.Marshal(c.CredentialSubject[0])
+	if err != nil {
+		return nil
+	}
+	var m map[string]interface{}
+	_ = json.Unmarshal(b, &m)
+	return m
+}
+
+func c16HasType(c vc.VerifiableCredential, t string) bool {
+	for _, u := range c.Type {
+		if u.String() == t {
+			return true
+		}
+	}
+	return false
+}
+
+// checkFields: the named constraint fields of every search result equal what the field's path yields on THE credential of
+// that presentation that satisfies the field's input descriptor (independent evaluation of the four fixed paths of the
+// definition; the order of the credentials inside the presentation is irrelevant, and so is the order of the results).
+func (w *c16World) checkFields(node string, res []SearchResult) {
+	x := w.x
+	for _, r := range res {
+		if r.Presentation.ID == nil {
+			continue
+		}
+		var member, reg *vc.VerifiableCredential
+		mi, ri := -1, -1
+		for i := range r.Presentation.VerifiableCredential {
+			c := r.Presentation.VerifiableCredential[i]
+			switch {
+			case c16HasType(c, "C16MembershipCredential") && c.Issuer.String() == c16Authority.did.String() && member == nil:
+				member, mi = &r.Presentation.VerifiableCredential[i], i
+			case c16HasType(c, "DiscoveryRegistrationCredential") && reg == nil:
+				reg, ri = &r.Presentation.VerifiableCredential[i], i
+			}
+		}
+		if member == nil || reg == nil || len(r.Presentation.VerifiableCredential) != 2 {
+			continue // not a registration that fulfils the definition (injected by the faulty-server op): nothing to compare
+		}
+		if mi < ri {
+			x.Class("search:result-credentials-in-definition-order")
+		} else {
+			x.Class("search:result-credentials-in-other-order")
+		}
+		want := map[string]interface{}{"issuer_field": member.Issuer.String()}
+		ms, rs := c16CredSubject(*member), c16CredSubject(*reg)
+		if v, ok := ms["name"]; ok {
+			want["member_name"] = v
+		}
+		if addr, ok := ms["address"].(map[string]interface{}); ok {
+			if v, ok := addr["city"]; ok {
+				want["member_city"] = v
+			}
+		}
+		if v, ok := rs["authServerURL"]; ok {
+			want["auth_server_url"] = v
+		}
+		id := r.Presentation.ID.String()
+		for _, k := range c16SortedKeys(want) {
+			got, ok := r.Fields[k]
+			if !ok {
+				x.Violate("search:field-missing", "%s: result %s lacks field %q (expected %v; credentials in presentation order: membership at %d, registration at %d)", node, id, k, want[k], mi, ri)
+			} else if fmt.Sprint(got) != fmt.Sprint(want[k]) {
+				x.Violate("search:field-value-differs", "%s: result %s field %q = %v, the mapped credential has %v (membership at %d, registration at %d)", node, id, k, got, want[k], mi, ri)
+			}
+		}
+		for _, k := range c16SortedKeys(r.Fields) {
+			if _, ok := want[k]; !ok {
+				x.Violate("search:field-unexpected", "%s: result %s carries field %q = %v which no named constraint field of the definition yields", node, id, k, r.Fields[k])
+			}
+		}
+	}
+}
+
 func (w *c16World) search(c *c16Node, query map[string]string) map[string]bool {
 	res, err := c.mod.Search(c16ServiceID, query)
 	w.x.NoErr(err, "Search on "+c.name)
+	w.checkFields(c.name, res)
 	out := map[string]bool{}
 	for _, r := range res {
 		if r.Presentation.ID == nil {
